@@ -208,6 +208,7 @@ func RunOne(t *testing.T, scn *Scenario, cs *Case, tape *simrt.Tape, tier string
 		s.Trace = trace
 		s.SkipMax = int(cs.Knob("skipmax", 1))
 		s.MapOrder = int(cs.Knob("maporder", 0))
+		s.StallPm = int(cs.Knob("stall_pm", 0))
 		if v := cs.Knob("maxsteps", 0); v > 0 {
 			s.MaxSteps = uint64(v)
 		}
